@@ -168,6 +168,9 @@ func runC05(t *sim.T, tier string) *sim.Violation {
 	if tier == "thorough" && t.Chance(1, 20000) {
 		return c05Giant(t)
 	}
+	if t.Chance(1, 2500) {
+		return c05LongJournal(t)
+	}
 	switch t.Weighted(4, 4, 2, 3) {
 	case 0:
 		return c05Static(t)
@@ -951,5 +954,62 @@ func c05Journal(t *sim.T) *sim.Violation {
 	t.SimTime = float64(n) * 60
 	t.Case = sim.HashStrings(append([]string{"journal"}, hashes...)...)
 	t.Nontriv = faults > 0 && len(src.items) > 0
+	return nil
+}
+
+// c05LongJournal: a history of one to two thousand small feeds from the simulated world, with hours-long gaps in
+// the publisher's clock and trips that lose and regain their vehicle: periodic housekeeping inside BuildJournal
+// (anything that happens every N-th feed, or after a trip has been idle for hours) only runs on such histories.
+func c05LongJournal(t *sim.T) *sim.Violation {
+	cfg := gen.DrawWorldCfg(t)
+	n := t.Range(1000, 2200)
+	cfg.Trips = t.Range(3, 10)
+	cfg.Horizon = n
+	cfg.ExplicitTime = true
+	cfg.TickMax = t.Range(30, 300)
+	if cfg.ClockFaults == 0 {
+		cfg.ClockFaults = t.Range(1, 3)
+	}
+	if cfg.FlapAssign == 0 {
+		cfg.FlapAssign = 1
+	}
+	if cfg.OmitRate == 0 {
+		cfg.OmitRate = 1
+	}
+	spec := ExtSpec{Kind: 2, TZ: t.Choose(3)}
+	if !cfg.Nyct {
+		spec.Kind = 0
+	}
+	w := gen.NewWorld(t, cfg)
+	src := &sliceSource{recycle: t.Chance(1, 4)}
+	o := spec.Fresh()
+	for i := 0; i < n; i++ {
+		r, err, pv, stack := parseRT(gen.MarshalFeed(w.Tick()), o)
+		if pv != nil {
+			return crash("ParseRealtime("+spec.String()+")", pv, stack)
+		}
+		if err == nil && r != nil {
+			src.items = append(src.items, r)
+		}
+	}
+	t.Probe("journal-long-history")
+	t.Logf("BuildJournal over %d feeds of a simulated world (%s)", len(src.items), spec)
+	var j *journal.Journal
+	pv, stack := guard(func() { j = journal.BuildJournal(src, allStart, allEnd) })
+	if pv != nil {
+		return crash("BuildJournal", pv, stack)
+	}
+	if j != nil {
+		if pv, stack = guard(func() { _, _ = j.ExportToCsv() }); pv != nil {
+			return crash("ExportToCsv", pv, stack)
+		}
+	}
+	t.SimTime = float64(n) * 60
+	nt := 0
+	if j != nil {
+		nt = len(j.Trips)
+	}
+	t.Case = sim.HashStrings("long-journal", fmt.Sprint(n), fmt.Sprint(nt))
+	t.Nontriv = true
 	return nil
 }
